@@ -27,7 +27,7 @@ def generate(ctx):
     n = ctx.budget(10000, 1600000)
     for _ in range(n):
         cfg = gen.gen_cfg(ctx.rng)
-        regime = ctx.rng.choice(["round_numbers", "typical", "tiny_sigma", "wide", "mismatch", "equal_size", "identical"])
+        regime = ctx.rng.choice(["round_numbers", "coincidences", "typical", "tiny_sigma", "wide", "mismatch", "equal_size", "identical"])
         case, meta = gen.gen_case(ctx.rng, cfg=cfg, regime=regime, percall=False)
         b = cfg["beta"]
         t = ctx.rng.choice([0, 0.0, 1e-9 * b, 25.0 / 300.0, b, 10 * b, 1])
